@@ -217,7 +217,11 @@ def materialize(scn, root):
         (root / inc["file"]).write_text("BASE_ARGS = %s\nBASE_OPTIONS = %s\nSHARED_DEPS = []\n"
                                         % (py_lit(inc["base_args"]), py_lit(inc["base_options"]))
                                         + ("REL_DEPS = [%r]\n" % (":" + inc["rel_deps"]) if inc.get("rel_deps") else ""))
-    if scn.get("condout_symlink"):
+    if scn.get("condout_symlink") == "dangling-relative":
+        # cond-out is a link with a relative target that is gone (scratch space was purged)
+        if not os.path.lexists(root / "cond-out"):
+            os.symlink("../scratch-gone/proj-out", str(root / "cond-out"))
+    elif scn.get("condout_symlink"):
         # results kept on another volume: cond-out is a symbolic link
         store = root.parent / "storage"
         store.mkdir(exist_ok=True)
@@ -278,7 +282,9 @@ def op_argv(op, sim_obj=None):
             a.append(op["target"])
         if f.get("latest"):
             a.append("--latest")
-        if op.get("out"):
+        if op.get("out_rel"):
+            a += ["-o", op["out_rel"]]          # relative: meant to be resolved against the working directory
+        elif op.get("out"):
             a += ["-o", op["out_path"]]
         return a
     if k == "restore":
